@@ -97,7 +97,8 @@ CONTRACTS.append(operand)
 #   aliases(n)        = the variable names bound to n;   output_aliases(n) = those of them the program never reads
 #   is_output(n)      <=> n is a labelled value nobody consumes, or n has an output alias
 # Evaluated on the REAL method over an enumerated box: a three-node program (input x, t = x * 3, u = t + 1) with names
-# x, total, alias, out and every subset of {x, total, alias, out} as the set of names the program reads: bounded.
+# x, total, alias, out and every subset of {x, total, alias, out} as the set of names the program reads — each also with a named twin of t
+# that CSE eliminated (its names must become names of t): bounded.
 # =================================================================================================
 import itertools as _it2  # noqa: E402
 
@@ -107,8 +108,9 @@ ANQ = "dsl_compiler/src/layout/signal_analyzer.py::SignalAnalyzer.analyze"
 def _analyze_post(a, res):
     me = a.self
     names_of = {}
+    merged = getattr(me, "_merged_into", {})   # (scenario) a node eliminated as a common subexpression lives on in its twin: its names are the twin's
     for name, ref in me.signal_refs.items():
-        names_of.setdefault(ref.source_id, set()).add(name)
+        names_of.setdefault(merged.get(ref.source_id, ref.source_id), set()).add(name)
     readers = {"x": {"t"}, "t": {"u"}, "u": set()}
     for nid in ("x", "t", "u"):
         e = res.get(nid)
@@ -146,4 +148,14 @@ def analyze_arg_sets():
             refs = {"x": N.SignalRef("signal-A", "x"), "total": N.SignalRef("signal-A", "t"), "alias": N.SignalRef("signal-A", "t"), "out": N.SignalRef("signal-A", "u")}
             an = SignalAnalyzer(ProgramDiagnostics(log_level="error"), {}, signal_refs=refs, referenced_signal_names=set(read))
             out.append({"self": an, "ir_operations": [x, t, u]})
+            # the same program after CSE removed a twin of t that the program had named `twin` (recorded on t by the optimizer)
+            x2 = N.IRConst("x", "signal-A"); x2.value = 6; x2.debug_label = "x"; x2.debug_metadata["user_declared"] = True
+            t2 = N.IRArith("t", "signal-A"); t2.op = "*"; t2.left = N.SignalRef("signal-A", "x"); t2.right = 3; t2.debug_label = "total"
+            t2.debug_metadata["cse_merged_ids"] = ["t_twin"]
+            u2 = N.IRArith("u", "signal-A"); u2.op = "+"; u2.left = N.SignalRef("signal-A", "t"); u2.right = 1; u2.debug_label = "out"
+            refs2 = dict(refs)
+            refs2["twin"] = N.SignalRef("signal-A", "t_twin")
+            an2 = SignalAnalyzer(ProgramDiagnostics(log_level="error"), {}, signal_refs=refs2, referenced_signal_names=set(read))
+            an2._merged_into = {"t_twin": "t"}
+            out.append({"self": an2, "ir_operations": [x2, t2, u2]})
     return out
